@@ -87,6 +87,7 @@ impl Outcome {
     pub fn same(&self, o: &Outcome) -> bool {
         match (self, o) {
             (Outcome::Panicked(_), Outcome::Panicked(_)) => true,
+            (Outcome::BuildErr(_), Outcome::BuildErr(_)) => true,
             (a, b) => a == b,
         }
     }
